@@ -171,12 +171,14 @@ PROPS["C01"] = {
              "injection of a recorded earlier session of the same long-term keys, attacker M running its own exchange against either victim in either role, to completion or abandoned, advertising key K_A/K_B/K_M while signing with K_M, also against already encrypted victims. "
              "Oracle after every op for every encrypted party P: SSID == h2(0, Y^e) for an exponent e P drew and Y = g^e' of a live party X of this run (degenerate values, recorded-session values, adversary-chosen values or no match: violation); GetTheirKey fingerprint == key X signs with; "
              "A and B sharing an SSID highlight complementary halves and can read each other's probe text at the end. Non-trivial: an attacker op touched an AKE message that was delivered and a Reveal-Signature/Signature was processed. "
-             "Sweep: honest handshake where message k is preceded by a copy with one byte ^01/^80/:=00/:=FF or truncated at every offset."),
+             "Sweep: honest handshake where message k is preceded by a copy with one byte ^01/^80/:=00/:=FF or truncated at every offset. "
+             "Degenerate attacker (enumerated and sampled): an adversary without any exponent runs the exchange in either role with DH value 1, p-1, 0 or p+1, guessing the shared secret 1/p-1/0, optionally sending an in-range value after the refused one, against plaintext and encrypted victims."),
     "assumptions": COMMON_ASSUME,
-    "exhaustive_checks": ["C01sweep"],
+    "exhaustive_checks": ["C01sweep", "C01degenerate"],
     "tests": [
         {"name": "TestProp_C01_Attack", "quick": {"shards": 8, "checks": 100, "timeout": 500}, "thorough": {"shards": 16, "checks": 2500, "timeout": 3000}},
         {"name": "TestProp_C01_Sweep", "kind": "plain", "quick": {"shards": 8, "timeout": 500}, "thorough": {"shards": 16, "timeout": 3000}},
+        {"name": "TestProp_C01_Degenerate", "kind": "plain", "quick": {"shards": 4, "timeout": 500}, "thorough": {"shards": 8, "timeout": 3000}},
     ],
 }
 
